@@ -1,5 +1,5 @@
 """Property -> rules registry.  (rule function, ports) ; ports None = rule handles ports itself."""
-from .rules import sk, wr, conf, lk, cs, ow, gs, rd
+from .rules import sk, wr, conf, lk, cs, ow, gs, rd, rs, ag, hd, pa
 
 BOTH = ('py', 'js')
 PY = ('py',)
@@ -48,6 +48,36 @@ PROPS = {
     },
     'C20': {
         'rules': [(rd.rule_rd_jschunk, None), (rd.rule_rd_decode, JS), (rd.rule_rd_eof, JS), (rd.rule_rd_bom, JS), (rd.rule_rd_comment, JS), (rd.rule_rd_rfc, JS), (rd.rule_rd_hdrflag, JS), (rd.rule_rd_replay, JS), (cs.rule_rx_newline, JS)],
+        'explanation': 'x',
+        'not_decided': 'y',
+    },
+    'C15': {
+        'rules': [(rs.rule_rs_close, None), (rs.rule_rs_epipe, None), (rs.rule_rs_decerr, None), (rs.rule_fl_flags, BOTH), (rs.rule_fl_fields, BOTH)],
+        'explanation': 'x',
+        'not_decided': 'y',
+    },
+    'C03': {
+        'rules': [(ag.rule_ag_route, BOTH), (ag.rule_ag_init, BOTH), (ag.rule_ag_stage, BOTH), (ag.rule_ag_const, BOTH), (ag.rule_ag_sib, BOTH), (ag.rule_ag_mad, None), (ag.rule_ag_starcount, BOTH), (ag.rule_ag_keyord, BOTH)],
+        'explanation': 'x',
+        'not_decided': 'y',
+    },
+    'C04': {
+        'rules': [(ag.rule_jn_dispatch, BOTH), (ag.rule_jn_joiners, BOTH), (ag.rule_jn_build, BOTH), (ag.rule_pa_join, BOTH)],
+        'explanation': 'x',
+        'not_decided': 'y',
+    },
+    'C07': {
+        'rules': [(hd.rule_hd_table, BOTH), (hd.rule_hd_shapes, None), (hd.rule_hd_startwin, BOTH), (hd.rule_hd_except, BOTH), (hd.rule_hd_update, BOTH)],
+        'explanation': 'x',
+        'not_decided': 'y',
+    },
+    'C09': {
+        'rules': [(hd.rule_va_index, BOTH), (hd.rule_va_enum, BOTH), (hd.rule_va_esc, BOTH), (hd.rule_va_record, None)],
+        'explanation': 'x',
+        'not_decided': 'y',
+    },
+    'C08': {
+        'rules': [(pa.rule_pa_case, BOTH), (pa.rule_pa_withcase, BOTH), (pa.rule_pa_groups, BOTH), (pa.rule_pa_litorder, BOTH), (pa.rule_pa_lit, BOTH), (pa.rule_pa_top, BOTH), (pa.rule_pa_asc, BOTH), (pa.rule_pa_redund, BOTH)],
         'explanation': 'x',
         'not_decided': 'y',
     },
